@@ -15,7 +15,7 @@ Theorem C20_reader_inverts_printing :
          all_space w ->
          ascii (w ++ s ++ rest) ->
          (is_atom t = true -> ends_well rest = true) -> sx_parse (w ++ s ++ rest) = Some (ROk t (length w + length s)).
-Proof. exact parse_printed. Qed.
+Proof. exact (@parse_printed). Qed.
 Print Assumptions C20_reader_inverts_printing.
 
 (* the decimal numeral of any 64-bit value reads back as that value *)
@@ -24,7 +24,7 @@ Theorem C20_decimal_numerals :
          n < 2 ^ 64 ->
          let text := map dec_char (digits_of 10 19 n) in
          number 10 text = n /\ forallb is_digit text = true /\ text <> [].
-Proof. exact decimal_reads_back. Qed.
+Proof. exact (@decimal_reads_back). Qed.
 Print Assumptions C20_decimal_numerals.
 
 (* the hexadecimal numeral of any 64-bit value, in any mixture of letter cases, reads back as that value *)
@@ -35,14 +35,14 @@ Theorem C20_hexadecimal_numerals :
          let text :=
            map (fun p : bool * N => hex_char (fst p) (snd p)) (combine (cases ++ repeat false (length ds)) ds) in
          number 16 text = n /\ forallb is_xdigit text = true /\ text <> [].
-Proof. exact hexadecimal_reads_back. Qed.
+Proof. exact (@hexadecimal_reads_back). Qed.
 Print Assumptions C20_hexadecimal_numerals.
 
 (* in general: the value read is the positional value of the digits *)
 Theorem C20_numeral_value :
   forall (base : N) (ds text : list N),
          Forall2 (fun d c : N => digit_val c = d) ds text -> value base ds < 2 ^ 64 -> number base text = value base ds.
-Proof. exact number_value. Qed.
+Proof. exact (@number_value). Qed.
 Print Assumptions C20_numeral_value.
 
 (* whatever the reader accepts is optional white space and a rendering of the returned tree, inside the input; the position is its end *)
@@ -53,7 +53,7 @@ Theorem C20_accepted_means_printed :
          (c <= length inp)%nat /\
          (exists w s : list N,
             firstn c inp = w ++ s /\ all_space w /\ renders t s /\ (is_atom t = true -> ends_well (skipn c inp) = true)).
-Proof. exact sx_parse_sound. Qed.
+Proof. exact (@sx_parse_sound). Qed.
 Print Assumptions C20_accepted_means_printed.
 
 (* an input that does not begin, after optional white space, with a complete expression yields an error status (and the model returns no tree with an error) *)
@@ -63,13 +63,13 @@ Theorem C20_everything_else_is_rejected :
          (forall (w s rest : list N) (t : sx),
           inp = w ++ s ++ rest -> all_space w -> renders t s -> (is_atom t = true -> ends_well rest = true) -> False) ->
          exists e : sxstatus, sx_parse inp = Some (RErr e).
-Proof. exact sx_parse_rejects. Qed.
+Proof. exact (@sx_parse_rejects). Qed.
 Print Assumptions C20_everything_else_is_rejected.
 
 (* the reader terminates on every input (the fuel of the model, length + 1, is never exhausted) *)
 Theorem C20_reader_terminates :
   forall inp : list N, ascii inp -> sx_parse inp <> None.
-Proof. exact sx_parse_total. Qed.
+Proof. exact (@sx_parse_total). Qed.
 Print Assumptions C20_reader_terminates.
 
 (* the same for the elements of a list up to its closing parenthesis *)
@@ -78,7 +78,7 @@ Theorem C20_list_elements :
          ascii inp ->
          parse_list fuel inp = Some (ROk t c) ->
          (c <= length inp)%nat /\ (exists ts : list sx, t = list_of ts /\ renders_elems ts (firstn c inp)).
-Proof. exact parse_list_sound. Qed.
+Proof. exact (@parse_list_sound). Qed.
 Print Assumptions C20_list_elements.
 
 
